@@ -434,6 +434,12 @@ def run_dp(case):
             fr.iloc[a * sc:b * sc, 1] = np.nan
         for a, b in case["obs_nan"]:
             fr.iloc[a * sc:b * sc, 0] = np.nan
+        for pos, sign in case.get("temp_inf", []):
+            if pos * sc < m:
+                fr.iloc[pos * sc, 1] = sign * np.inf
+        for pos, sign in case.get("obs_inf", []):
+            if pos * sc < m:
+                fr.iloc[pos * sc, 0] = sign * np.inf
         if case["gaps"]:
             keep = np.ones(m, dtype=bool)
             for a, b in case["gaps"]:
@@ -629,7 +635,18 @@ def gen_dp_cases(rng, zones_trans, n):
                     out.append([a, min(m, a + rng.choice([1, 1, 2, maxlen]))])
             return out
         unit = 1 if inp == "daily" else 24
+
+        def infs(p, grid):
+            """[position, sign]: +-inf cells on the first / last / interior rows (positions on `grid` so that a billed
+            reading is hit as well)"""
+            out = []
+            if rng.random() < p:
+                for _ in range(rng.choice([1, 1, 2, 3])):
+                    pos = rng.choice([0, m - 1, rng.randrange(0, m), rng.randrange(0, m)])
+                    out.append([(pos // grid) * grid, rng.choice([1, -1])])
+            return out
         cases.append({"zone": z, "model": kind, "input": inp, "n": nd, "start_date": d0.isoformat(),
+                      "temp_inf": infs(0.35, 1), "obs_inf": infs(0.3, 30 * unit if kind == "billing" else 1),
                       "start_hour": rng.choice([0, 0, 1, 6, 13, 23]) if inp == "hourly" else 0,
                       "cut_end": rng.choice([0, 0, 1, 9, 23]) if inp == "hourly" else 0,
                       "with_obs": rng.random() < 0.7, "electric": rng.random() < 0.5, "seed": rng.randrange(2**31),
@@ -958,6 +975,8 @@ def process_dp(run, st, cases, results):
             st.outside("dp", case, res["predict"])
             continue
         n_drop = sum(1 for _, a, b, _ in res["rows"] if not (a is True and (not res["has_obs"] or b is True)))
+        n_inf = sum(1 for _, a, b, _ in res["rows"] if a is False or (res["has_obs"] and b is False))
+        run.dist("daily_frame_has_inf_cells", "%s/%s" % (case["model"], "yes" if n_inf else "no"))
         run.count(key, nontrivial=0 < n_drop < len(res["rows"]))
         run.dist("daily_rows", 10 ** len(str(len(res["rows"]))))
         if not res["input_unique"]:
@@ -1038,7 +1057,8 @@ def main():
         "_get_dst_indices, correct_dst (through _get_feature_matrices), _transform_dst vs the model; random clock patterns "
         "over all transition hours 0..23 for correct_dst / _transform_dst / the commented loop; (b) full predict of the "
         "hourly model (one real fit, re-labelled per zone) and of synthetic daily / billing models on reporting sets with "
-        "random spans, start/end hours, gaps, NaN stretches, with and without observed. distinct = case hash; non-trivial "
+        "random spans, start/end hours, gaps, NaN stretches, +-inf temperature / usage cells on first, last and interior rows "
+        "(daily/billing), with and without observed. distinct = case hash; non-trivial "
         "= the span contains a clock change (hourly) / both kept and dropped rows (daily)")
     run.assumptions += [
         "UTC offsets, transition instants and the resolvability of date labels are data read from the system tz database "
